@@ -44,8 +44,10 @@ static void one_A(int si, int li, unsigned A, struct res *r, long x) {
             else { r->validated++; r->cls[0]++; }
         } else {
             uint8_t st1[32]; memset(st1, 0, 32);
-            if (st == POLYSEED_OK) { polyseed_store(d, st1); polyseed_free(d); r->calls += 2; }
-            if (st != POLYSEED_OK || memcmp(st0, st1, 32)) { sprintf(rep, "case %s %u %u %d %u %u", h, SEEDS[si].birthday, SEEDS[si].features, li, A, B); snprintf(key, sizeof key, "c05:samecoin:%s", RL[li].code); res_viol(r, key, rep, "phrase for coin %u decoded for the same coin: status %d or different seed", A, st); }
+            int reenc_bad = 0;
+            if (st == POLYSEED_OK) { polyseed_store(d, st1); polyseed_str again; polyseed_encode(d, lang, (polyseed_coin)A, again); if (strcmp(again, phA)) reenc_bad = 1; polyseed_encode(d, lang, 0, again); if (strcmp(again, ph0)) reenc_bad = 1; polyseed_free(d); r->calls += 4; }
+            if (reenc_bad) { sprintf(rep, "case %s %u %u %d %u %u", h, SEEDS[si].birthday, SEEDS[si].features, li, A, B); snprintf(key, sizeof key, "c05:reencode:%s", RL[li].code); res_viol(r, key, rep, "the seed restored from the phrase for coin %u does not encode to the same phrases (for coin %u and for coin 0) as the original seed", A, A); }
+            else if (st != POLYSEED_OK || memcmp(st0, st1, 32)) { sprintf(rep, "case %s %u %u %d %u %u", h, SEEDS[si].birthday, SEEDS[si].features, li, A, B); snprintf(key, sizeof key, "c05:samecoin:%s", RL[li].code); res_viol(r, key, rep, "phrase for coin %u decoded for the same coin: status %d or different seed", A, st); }
             else { r->validated++; r->cls[1]++; }
         }
     }
